@@ -44,7 +44,7 @@ def table_case(counts, kind='ordinal', nan_counts=None, dev_counts=None, dev_nan
     return case
 
 
-def random_case(rng, n=None, with_dev=None, target=None, allow_nan=True):
+def random_case(rng, n=None, with_dev=None, target=None, allow_nan=True, degenerate=False, variants=False):
     n = n or rng.choice([30, 40, 60, 90])
     target = target or rng.choice(['binary', 'binary', 'continuous'])
     with_dev = rng.random() < 0.4 if with_dev is None else with_dev
@@ -55,6 +55,7 @@ def random_case(rng, n=None, with_dev=None, target=None, allow_nan=True):
     def maybe_nan(vals, p):
         return [np.nan if (allow_nan and rng.random() < p) else v for v in vals]
     arche = rng.sample(['q_disc', 'q_cont', 'c_cat', 'c_num', 'o_ord', 'q_spike'], rng.choice([2, 3, 3, 4]))
+    if degenerate: arche = arche[:2] + [rng.choice(['q_const', 'q_allnan', 'o_many', 'c_id', 'q_unique', 'c_const', 'q_two'])]
     for a in arche:
         pn = rng.choice([0, 0, 0.08, 0.2])
         if a == 'q_disc':
@@ -72,13 +73,29 @@ def random_case(rng, n=None, with_dev=None, target=None, allow_nan=True):
         elif a == 'o_ord':
             rank = ['low', 'mid', 'high', 'top', 'never'][:rng.choice([3, 4, 5])]; k = len(rank) - (1 if rank[-1] == 'never' else 0)
             cols[a] = maybe_nan([rank[min(k - 1, int(l * k + rng.random() * 0.9))] for l in latent], pn); ordinal.append(a); vo[a] = list(rank)
+        elif a == 'q_const': cols[a] = maybe_nan([3.5] * N, pn); quantitative.append(a)
+        elif a == 'q_allnan': cols[a] = [np.nan] * N; quantitative.append(a)
+        elif a == 'q_unique': cols[a] = maybe_nan([round(l * 100 + i * 1e-3, 4) for i, l in enumerate(latent)], pn); quantitative.append(a)
+        elif a == 'q_two': cols[a] = maybe_nan([0.0 if l < 0.93 else 1.0 for l in latent], pn); quantitative.append(a)
+        elif a == 'c_const': cols[a] = maybe_nan(['only'] * N, pn); qualitative.append(a)
+        elif a == 'c_id': cols[a] = ['id_%d' % (i % max(2, N - 3)) for i in range(N)]; qualitative.append(a)
+        elif a == 'o_many':
+            rank = ['lvl_%02d' % i for i in range(30)]
+            cols[a] = maybe_nan([rank[min(29, int(l * 30))] for l in latent], pn); ordinal.append(a); vo[a] = list(rank)
+    if variants:
+        for a in list(qualitative):
+            if a == 'c_cat' and rng.random() < 0.5:
+                seen = [v for v in dict.fromkeys(cols[a]) if isinstance(v, str)]; rng.shuffle(seen); vo[a] = seen          # user-supplied modalities for a NON-ordinal feature
     if target == 'binary':
         yv = [1 if l + rng.gauss(0, 0.35) > 0.55 else 0 for l in latent]
         if len(set(yv[:n])) < 2: yv[0], yv[1] = 0, 1
         if nd and len(set(yv[n:])) < 2: yv[n], yv[n + 1] = 0, 1
+    elif variants and rng.random() < 0.4:
+        yv = [min(0.999, max(0.0, round(l * 0.8 + rng.gauss(0, 0.08), 4))) for l in latent]                                 # ratio-like continuous target in [0, 1)
     else:
         yv = [round(l * 20 + rng.gauss(0, 4), 3) for l in latent]
-    df = pd.DataFrame({c: pd.Series(v, dtype=(float if c.startswith('q_') else object)) for c, v in cols.items()})
+    f32 = [c for c in cols if c.startswith('q_') and variants and rng.random() < 0.3]
+    df = pd.DataFrame({c: pd.Series(v, dtype=('float32' if c in f32 else float if c.startswith('q_') else object)) for c, v in cols.items()})
     y = pd.Series(yv)
     case = dict(X=df.iloc[:n].reset_index(drop=True), y=y.iloc[:n].reset_index(drop=True), X_dev=None, y_dev=None, quantitative=quantitative, qualitative=qualitative,
                 ordinal=ordinal, values_orders=vo, target=target, origin=dict(kind='random', n=n, dev=with_dev))
@@ -91,14 +108,14 @@ def case_literal(case):
     """JSON-able literal from which the case can be rebuilt exactly (rebuild_case)"""
     def col(s): return [None if (isinstance(v, float) and math.isnan(v)) else (v.item() if hasattr(v, 'item') else v) for v in s.tolist()]
     out = dict(X={c: col(case['X'][c]) for c in case['X'].columns}, y=col(case['y']), quantitative=case['quantitative'], qualitative=case['qualitative'],
-               ordinal=case['ordinal'], values_orders=case['values_orders'], target=case['target'], index=[str(i) if not isinstance(i, (int, float)) else i for i in case['X'].index.tolist()])
+               ordinal=case['ordinal'], values_orders=case['values_orders'], target=case['target'], float32=[c for c in case['X'].columns if str(case['X'][c].dtype) == 'float32'], index=[str(i) if not isinstance(i, (int, float)) else i for i in case['X'].index.tolist()])
     if case['X_dev'] is not None:
         out['X_dev'] = {c: col(case['X_dev'][c]) for c in case['X_dev'].columns}; out['y_dev'] = col(case['y_dev'])
     return out
 
 
 def rebuild_case(lit):
-    def frame(d): return pd.DataFrame({c: pd.Series([np.nan if v is None else v for v in vs], dtype=(float if c in lit['quantitative'] else object)) for c, vs in d.items()})
+    def frame(d): return pd.DataFrame({c: pd.Series([np.nan if v is None else v for v in vs], dtype=('float32' if c in lit.get('float32', []) else float if c in lit['quantitative'] else object)) for c, vs in d.items()})
     case = dict(X=frame(lit['X']), y=pd.Series(lit['y']), X_dev=None, y_dev=None, quantitative=lit['quantitative'], qualitative=lit['qualitative'], ordinal=lit['ordinal'],
                 values_orders=lit['values_orders'], target=lit['target'], origin=dict(kind='literal'))
     if 'X_dev' in lit: case['X_dev'] = frame(lit['X_dev']); case['y_dev'] = pd.Series(lit['y_dev'])
@@ -116,7 +133,7 @@ def make_carver(case, cfg):
     from AutoCarver.carvers.continuous_carver import ContinuousCarver
     kw = dict(min_freq=cfg['min_freq'], quantitative_features=list(case['quantitative']), qualitative_features=list(case['qualitative']), ordinal_features=list(case['ordinal']),
               values_orders=values_orders_arg(case), max_n_mod=cfg['max_n_mod'], min_freq_mod=cfg.get('min_freq_mod'), output_dtype=cfg.get('output_dtype', 'float'),
-              dropna=cfg.get('dropna', True), copy=cfg.get('copy', True), verbose=False)
+              dropna=cfg.get('dropna', True), copy=cfg.get('copy', True), verbose=False, **extra_kwargs(cfg))
     if case['target'] == 'binary': return BinaryCarver(sort_by=cfg.get('sort_by', 'tschuprowt'), **kw)
     return ContinuousCarver(**kw)
 
@@ -128,10 +145,14 @@ def fit_carver(case, cfg):
     return c
 
 
-def make_discretizer(case, min_freq, copy=True):
+def extra_kwargs(cfg):
+    return {k: cfg[k] for k in ('str_nan', 'str_default') if k in cfg}
+
+
+def make_discretizer(case, min_freq, copy=True, cfg=None):
     from AutoCarver.discretizers import Discretizer
     return Discretizer(quantitative_features=list(case['quantitative']), qualitative_features=list(case['qualitative']), ordinal_features=list(case['ordinal']),
-                       values_orders=values_orders_arg(case), min_freq=min_freq, copy=copy, verbose=False)
+                       values_orders=values_orders_arg(case), min_freq=min_freq, copy=copy, verbose=False, **extra_kwargs(cfg or {}))
 
 
 CONFIGS = [dict(min_freq=mf, max_n_mod=mx, sort_by=sb, dropna=dn, output_dtype=od)
